@@ -49,6 +49,8 @@ def in_scope(prop, b):
     why = b.get("why", "")
     failed = "failed" in d
     overflow = failed and "overflow" in json.dumps(b.get("x", ""))
+    if prop == "C01":
+        return ev == "Moves" and bool(d & {"result", "failed"})
     if prop == "C03":
         return ev == "Apply" and (bool(d & PLACE) or (failed and not overflow))
     if prop == "C04":
@@ -92,7 +94,7 @@ def in_scope(prop, b):
     return False
 
 
-def run_traces(ctx, scenario, shards, games, plies, with_sum=False, label=None, timeout=1800):
+def run_traces(ctx, scenario, shards, games, plies, with_sum=False, label=None, timeout=1800, tlc_env=None):
     """Record `shards` traces from the real code (different seeds) and validate each with its own
     single-worker TLC (the search is linear).  Returns (bad entries, events, histories, skipped)."""
     label = label or scenario
@@ -105,7 +107,9 @@ def run_traces(ctx, scenario, shards, games, plies, with_sum=False, label=None, 
             args.append("--sum")
         summ = harness(args, timeout=timeout)
         summ["args"] = [str(a) for a in args]
-        r = tlc.run("Trace_Engine", "Trace_Engine.cfg", env={"TRACE": out}, workers=1, want_records=True, stack="64m",
+        env = {"TRACE": out}
+        env.update(tlc_env or {})
+        r = tlc.run("Trace_Engine", "Trace_Engine.cfg", env=env, workers=1, want_records=True, stack="64m",
                     heap="1500m", young="300m", timeout=timeout)
         return i, out, summ, r
 
